@@ -129,6 +129,16 @@ namespace lang
             return;
         }
 
+        if (&to_replace == &str || &replacement == &str)
+        {
+            // str itself was passed as pattern or replacement: work with what they were on entry,
+            // not with what they turn into while str is rewritten
+            const std::string pattern = to_replace;
+            const std::string text = replacement;
+            replace_all(str, pattern, text);
+            return;
+        }
+
         size_t start_pos = 0;
         while ((start_pos = str.find(to_replace, start_pos)) != std::string::npos)
         {
